@@ -423,8 +423,24 @@ def main(repo, out, work):
         try:
             be = ByteExpr(ptr, char_locals)
             be.tr(cond)
-        except TranslateError:
-            continue            # not a byte condition (`if (!opt)`, flag tests …): it is in the skeleton
+        except TranslateError as e:
+            # a condition that does not look at the text (`if (!opt)`, `if (equal_sign)`, flag tests) is not a byte
+            # condition: it is in the skeleton.  One that does read `*s`, `s[k]` or a `char` local must translate.
+            def reads_text(n):
+                n0 = strip(n) if isinstance(n, dict) and 'kind' in n else n
+                if isinstance(n0, dict):
+                    k = n0.get('kind')
+                    if k == 'DeclRefExpr' and n0.get('referencedDecl', {}).get('name') in char_locals:
+                        return True
+                    if k in ('UnaryOperator', 'ArraySubscriptExpr') and (n0.get('opcode') == '*' or k == 'ArraySubscriptExpr'):
+                        a = strip(kids(n0)[0])
+                        if a.get('kind') == 'DeclRefExpr' and a.get('referencedDecl', {}).get('name') == ptr:
+                            return True
+                    return any(reads_text(c) for c in kids(n0))
+                return False
+            if reads_text(cond):
+                raise TranslateError('ParseOptionString: condition `%s` reads the option text but cannot be translated: %s' % (sk_cc.slice(cond), e))
+            continue
         if not be.vars:
             continue
         conds.append((st, cond))
